@@ -9,7 +9,7 @@ import re
 import textwrap
 from typing import Dict, List, Optional, Set, Tuple
 
-from ..core import (AnalysisError, FuncInfo, Index, Result, call_name, call_recv, const_str, dotted, iter_calls,
+from ..core import (seq, AnalysisError, FuncInfo, Index, Result, call_name, call_recv, const_str, dotted, iter_calls,
                     norm_stmt, src, walk_no_nested)
 from ..nf import graft, nf, parse_expr, root_kind
 from ..templates import (Hole, Lit, Opq, Parts, Path, Rep, SExt, SList, SNone, SObj, SOpq, SStr, SV, TermEval, TimeRef,
@@ -625,11 +625,17 @@ def check_c03(idx: Index, tier: str, res: Result) -> None:
                   (isinstance(n, ast.Assign) and src(n.targets[0]) == fld and not isinstance(n.value, (ast.List, ast.Constant)))]
         for st in stores:
             nn += 1
-            leaves = [c for c in ast.walk(st.value) if isinstance(c, ast.Call) and call_name(c) == "make_name_absolute"] or \
-                     ([st.value.orelse] if isinstance(st.value, ast.IfExp) else [st.value])
+            def branches(e):
+                if isinstance(e, ast.IfExp):
+                    return branches(e.body) + branches(e.orelse)
+                if isinstance(e, ast.Constant) or (isinstance(e, (ast.List, ast.Tuple)) and not e.elts):
+                    return []           # the default for an absent tag
+                return [e]
+            leaves = [c for c in ast.walk(st.value) if isinstance(c, ast.Call) and call_name(c) == "make_name_absolute"] or branches(st.value)
             ok = True
             for lf in leaves:
-                par_ok = any(isinstance(c, ast.Call) and call_name(c) == "sanitizeName" and any(x is lf for x in ast.walk(c)) for c in ast.walk(st.value))
+                par_ok = any(isinstance(c, ast.Call) and call_name(c) == "sanitizeName" and any(x is lf for x in ast.walk(c)) for c in ast.walk(st.value)) \
+                    or (isinstance(lf, ast.ListComp) and isinstance(lf.elt, ast.Call) and call_name(lf.elt) == "sanitizeName")
                 ok = ok and par_ok
             res.check("NAMES", "parse_entity sanitises %s" % fld, ok, pent.loc(st), pent.qual, norm_stmt(st)[:110],
                       "parse_entity stores %s without sanitizeName" % fld, key="NAMES/parse_entity/%s" % fld)
@@ -952,6 +958,12 @@ def jinja_methods(idx: Index) -> Tuple[Dict[str, ast.FunctionDef], List[str]]:
                 out[name] = ast.parse(srctext).body[0]
         except SyntaxError:
             failed.append(name)
+    # the same analysis view as for the package's own modules: idioms normalised, unknown helpers looked through
+    from ..inline import canonicalise, inline_module, load_vocab
+    cls = ast.ClassDef(name="simulation_model", bases=[], keywords=[], body=list(out.values()) or [ast.Pass()], decorator_list=[])
+    mod = ast.fix_missing_locations(ast.Module(body=[cls], type_ignores=[]))
+    canonicalise(mod)
+    inline_module(mod, load_vocab())
     return out, failed
 
 
@@ -1028,17 +1040,21 @@ def _lookup_shape(fn: ast.FunctionDef, res: Result, rule: str, who: str, where: 
 
 
 def _previous_regexes(idx: Index) -> List[Tuple[str, str]]:
+    from ..util import deref
     fi = idx.func(PY, "previous")
-    pats: Dict[str, str] = {}
-    for n in walk_no_nested(fi.node):
-        if isinstance(n, ast.Assign) and isinstance(n.targets[0], ast.Name) and isinstance(n.value, ast.Constant) and isinstance(n.value.value, str) \
-                and n.targets[0].id.startswith("pattern"):
-            pats[n.targets[0].id] = n.value.value
     subs = []
-    for c in sorted([c for c in iter_calls(fi.node) if call_name(c) == "sub" and call_recv(c) == "re"], key=lambda c: c.lineno):
-        p_, r_ = c.args[0], c.args[1]
-        pat = pats.get(p_.id) if isinstance(p_, ast.Name) else const_str(p_)
-        rep = const_str(r_)
+    for c in sorted([c for c in iter_calls(fi.node) if call_name(c) == "sub"], key=seq):
+        if call_recv(c) == "re" and len(c.args) >= 3:                      # re.sub(pattern, repl, text)
+            p_, r_ = c.args[0], c.args[1]
+        elif isinstance(c.func, ast.Attribute) and len(c.args) >= 2:      # re.compile(pattern).sub(repl, text)
+            comp = deref(fi.node, c.func.value)
+            if not (isinstance(comp, ast.Call) and call_name(comp) == "compile" and comp.args):
+                continue
+            p_, r_ = comp.args[0], c.args[0]
+        else:
+            continue
+        pat = const_str(deref(fi.node, p_))
+        rep = const_str(deref(fi.node, r_))
         if pat is None or rep is None:
             raise AnalysisError("previous(): re.sub with non-constant pattern/replacement")
         subs.append((pat, rep))
@@ -1131,13 +1147,13 @@ def _join_fold(idx: Index, res: Result) -> int:
         res.check("JOIN", "%s.%s keeps both arguments" % (qual, stepf.name), set(ps) <= used, stepf.loc(), stepf.qual, src(rets[0].value)[:80] if rets else "",
                   "the fold step returns a node without %s" % sorted(set(ps) - used), key="JOIN/%s/step-drops-argument" % qual)
         # (d) the accumulator is what is returned after the loop
-        after = [r for r in walk_no_nested(fi.node) if isinstance(r, ast.Return) and r.lineno > lp.lineno]
+        after = [r for r in walk_no_nested(fi.node) if isinstance(r, ast.Return) and seq(r) > seq(lp)]
         ok = bool(after) and all(src(r.value) == acc for r in after)
         res.check("JOIN", "%s returns the accumulator" % qual, ok, fi.loc(after[0]) if after else fi.loc(), fi.qual, src(after[0].value) if after else "",
                   "after the fold %s returns %s, not the accumulator %s" % (qual, src(after[0].value) if after else "nothing", acc),
                   key="JOIN/%s/returns-%s" % (qual, src(after[0].value) if after else "nothing"))
         # (e) the seed of the accumulator reaches the loop: acc is bound to the seed literal before the loop
-        pre = [a for a in assigns.get(acc, []) if a.lineno < lp.lineno]
+        pre = [a for a in assigns.get(acc, []) if seq(a) < seq(lp)]
         res.check("JOIN", "%s: accumulator seeded before the loop" % qual, bool(pre), fi.loc(lp), fi.qual, acc, "the accumulator %s has no binding before the loop" % acc,
                   key="JOIN/%s/unseeded" % qual)
     return n_inst
